@@ -38,6 +38,20 @@ class Runaway(Exception):
 MAX_CYCLES = 3000
 
 
+class SeqSet(set):
+    """set of names that also remembers the trace position (number of events so far) of the latest add:
+    a pool doer can live several lifecycles, and 'returned by itself' belongs to one of them."""
+
+    def __init__(self, trace):
+        super().__init__()
+        self.trace = trace
+        self.seq = {}
+
+    def add(self, name):
+        self.seq[name] = len(self.trace.ev)
+        super().add(name)
+
+
 class Trace:
     def __init__(self):
         self.ev = []          # (seq, code, name, cycle, sent, tymth)
@@ -47,7 +61,8 @@ class Trace:
         self.open = set()     # names with an entered and not yet exited lifecycle
         self.skipped = []     # membership targets the harness refused to pass on (undefined by the API)
         self.raised = {}      # name -> 'Stop' | 'kbi' | 'call' : the doer's own code raised
-        self.own_return = set()   # names whose own code returned (finished by itself)
+        self.own_return = SeqSet(self)   # names whose own code returned (finished by itself), with trace position
+        self.raised_seq = {}      # name -> trace position at which its own code raised
 
     def log(self, code, name, sent=None, tymth=None):
         d = self.doist
@@ -492,6 +507,7 @@ def run_program(prog, mode="do", collect=False):
     out.calls = tr.calls
     out.raised = tr.raised
     out.own_return = tr.own_return
+    out.own_return_seq = tr.own_return.seq
     out.done = doist.done
     out.tyme = doist.tyme
     out.cycles = doist.cycles
